@@ -268,12 +268,12 @@ class DOOAd(Adapter):
     def tab(p):
         k = p.get("delta_kind", "geom")
         if k == "lin0":        # a user bound that reaches exactly 0 at some depth and stays there
-            return [max(0.0, p["delta_c"] - p["delta_g"] * h) for h in range(300)]
+            return [max(0.0, p["delta_c"] - p["delta_g"] * h) for h in range(1300)]
         if k == "zero":        # purely greedy
-            return [0.0 for h in range(300)]
+            return [0.0 for h in range(1300)]
         if k == "const":
-            return [p["delta_c"] for h in range(300)]
-        return [p["delta_c"] * p["delta_g"] ** h for h in range(300)]
+            return [p["delta_c"] for h in range(1300)]
+        return [p["delta_c"] * p["delta_g"] ** h for h in range(1300)]
 
     def gen_params(self, rnd, T):
         p = {"n": rnd.choice([T, 100])}
